@@ -63,17 +63,18 @@ def make_groups(cat, gold, tier):
         g = Group(nm, {model: ver(model)}, [ty], init={ty: (("init", 100),)})
         for v, val in (("p", 100), ("r", 101), ("a", 102)):
             g.add(c + "P" + v, c + "P" + v, [(ty, "set", (c + "P" + v, val))])
-        G.append(g)
+        if tier != "quick" or nm == "nosv-idle":
+            G.append(g)
     # nOS-V task channels: task k runs on thread k; a helper thread creates type and tasks first
     g = Group("nosv-task", {"nosv": ver("nosv")}, [10, 11, 12, 14, 15, 13], rank=3,
               helper_prefix=[("VYc", u32(7) + b"ttype\0", True), ("VTc", u32(1, 7), False), ("VTc", u32(2, 7), False)])
-    g.add("VTx", "VTx", [(10, "push", "taskid"), (11, "push", "gid"), (12, "push", "appid"), (14, "push", "rank"),
-                         (15, "push", "bodyid"), (13, "push", ("body", 11))], payload=lambda k: u32(k + 1, 0))
-    g.add("VTe", "VTe", [(10, "pop", "taskid"), (11, "pop", "gid"), (12, "pop", "appid"), (14, "pop", "rank"),
-                         (15, "pop", "bodyid"), (13, "pop", ("body", 11))], payload=lambda k: u32(k + 1, 0))
+    g.add("VTx", "VTx", lambda k: [(10, "push", "taskid%d" % k), (11, "push", "gid"), (12, "push", "appid"), (14, "push", "rank"),
+                                   (15, "push", "bodyid"), (13, "push", ("body", 11))], payload=lambda k: u32(k + 1, 0))
+    g.add("VTe", "VTe", lambda k: [(10, "pop", "taskid%d" % k), (11, "pop", "gid"), (12, "pop", "appid"), (14, "pop", "rank"),
+                                   (15, "pop", "bodyid"), (13, "pop", ("body", 11))], payload=lambda k: u32(k + 1, 0))
     G.append(g)
-    G.append(stack_group("nanos6-thread", "nanos6", 39, ["6Hw", "6He"]))
     if tier != "quick":
+        G.append(stack_group("nanos6-thread", "nanos6", 39, ["6Hw", "6He"]))
         G.append(stack_group("nanos6-subsystem", "nanos6", 37, ["6W[", "6Bb"]))
         G.append(stack_group("nodes-subsystem", "nodes", 30, ["DR[", "DT["]))
         G.append(stack_group("tampi-subsystem", "tampi", 20, ["TCi", "TLp"]))
@@ -84,9 +85,9 @@ def make_groups(cat, gold, tier):
         G.append(g)
         g = Group("nanos6-task", {"nanos6": ver("nanos6")}, [35, 36, 38, 37], rank=2,
                   helper_prefix=[("6Yc", u32(7) + b"ttype\0", True), ("6Tc", u32(1, 7), False), ("6Tc", u32(2, 7), False)])
-        g.add("6Tx", "6Tx", [(35, "push", "taskid"), (36, "push", "gid"), (38, "push", "rank"), (37, "push", ("body", None))],
+        g.add("6Tx", "6Tx", lambda k: [(35, "push", "taskid%d" % k), (36, "push", "gid"), (38, "push", "rank"), (37, "push", ("body", None))],
               payload=lambda k: u32(k + 1))
-        g.add("6Te", "6Te", [(35, "pop", "taskid"), (36, "pop", "gid"), (38, "pop", "rank"), (37, "pop", ("body", None))],
+        g.add("6Te", "6Te", lambda k: [(35, "pop", "taskid%d" % k), (36, "pop", "gid"), (38, "pop", "rank"), (37, "pop", ("body", None))],
               payload=lambda k: u32(k + 1))
         G.append(g)
         # user marks: one stack type (0) and one single type (1)
@@ -152,6 +153,8 @@ class ViewRef(Ref):
             pre = False
         d = dict(vals[k])
         okk = pre
+        if callable(ops):
+            ops = ops(k)
         for (ty, op, sym) in ops:
             cur = d[ty]
             if op == "push":
@@ -231,7 +234,8 @@ class ViewRef(Ref):
                     else:
                         d[("cpu", cd["row"], ty)] = 0
                 else:
-                    d[("cpu", cd["row"], ty)] = CPU_DEFAULT.get(ty, 0)
+                    # "empty, or the quantity's idle default"
+                    d[("cpu", cd["row"], ty)] = (0, CPU_DEFAULT[ty]) if ty in CPU_DEFAULT else 0
         return d
 
     def attribute(self, kind, label):
